@@ -438,6 +438,9 @@ OPS = {
     "tlv_status_from_int": op_tlv_status_from_int, "tlv_utf8": op_tlv_utf8,
 }
 
+for _k in [k for k in OPS if k.endswith(("_pack", "_new", "_len"))]:
+    OPS[_k] = core.encoder_failure_is_refusal(OPS[_k])
+
 # ---------------------------------------------------------------- generators
 LENS_OK = [0, 1, 2, 3, 4, 8, 127, 128, 254, 255]
 LENS_BAD = [256, 257, 300, 511, 512, 1000, 65536]
